@@ -378,7 +378,14 @@ func (r *Resp) String() string {
 
 // Check runs one request through a freshly built handler, exactly as server.Check does per request.
 func (w *World) Check(req Req) (r *Resp) {
-	r = &Resp{Req: req, StoreFrom: w.Store.Len(), LedgerFrom: w.IdP.LedgerLen(), AuthFrom: w.IdP.AuthCount(),
+	r = w.CheckRaw(req.Envoy())
+	r.Req = req
+	return r
+}
+
+// CheckRaw does the same for an arbitrary CheckRequest.
+func (w *World) CheckRaw(req *envoy.CheckRequest) (r *Resp) {
+	r = &Resp{StoreFrom: w.Store.Len(), LedgerFrom: w.IdP.LedgerLen(), AuthFrom: w.IdP.AuthCount(),
 		FiredFrom: w.FiredCount(), At: w.Clock.Now()}
 	w.Checks++
 	defer func() {
@@ -389,7 +396,7 @@ func (w *World) Check(req Req) (r *Resp) {
 		r.FiredTo = w.FiredCount()
 	}()
 	if w.Opts.ViaServer {
-		resp, err := w.Filter.Check(context.Background(), req.Envoy())
+		resp, err := w.Filter.Check(context.Background(), req)
 		r.Err = err
 		ParseResp(r, resp)
 		return r
@@ -400,7 +407,7 @@ func (w *World) Check(req Req) (r *Resp) {
 		return r
 	}
 	resp := &envoy.CheckResponse{}
-	if err := h.Process(context.Background(), req.Envoy(), resp); err != nil {
+	if err := h.Process(context.Background(), req, resp); err != nil {
 		r.Err = err
 		return r
 	}
